@@ -47,10 +47,11 @@ struct TempDir(std::path::PathBuf);
 impl Drop for TempDir { fn drop(&mut self) { let _ = std::fs::remove_dir_all(&self.0); } }
 
 /// version k of the document: k blank lines in front shift every declaration (definition targets),
-/// the field and the unused local carry the version in their names (completion, diagnostics)
+/// the field and the unused local carry the version in their names (completion, diagnostics); the second method's
+/// name breaks the casing convention, so that every diagnostics answer holds a finding of the annotated-tree checkers
 fn text(k: usize) -> String {
-    format!("{}class aDoc (aBase)\nF_v{} : int4\nproc Work\n  var u_v{} : int4\n  var t : aBase\n  t.B0 = self.F_v{}\n  self.\nendproc\n",
-            "\n".repeat(k), k, k, k)
+    format!("{}class aDoc (aBase)\nF_v{} : int4\nproc Work\n  var u_v{} : int4\n  var t : aBase\n  t.B0 = self.F_v{}\n  self.\nendproc\nproc lower_v{}\nendproc\n",
+            "\n".repeat(k), k, k, k, k)
 }
 
 fn request(pm: &ProjectManager, uri: &Url, kind: &str, k_hint: usize) -> String {
@@ -136,8 +137,9 @@ fn solo(kind: &str, k: usize) -> String {
 
 struct Gate { state: Mutex<(bool, bool)>, cv: Condvar }   // (reached, released)
 
-const HOOKS: [&str; 5] = ["analyze:after_cache_check", "annotate:after_publish_tree", "doc:between_read_and_write_lock",
-                          "entity:between_lookup_and_insert", "change:between_reset_and_install"];
+const HOOKS: [&str; 6] = ["analyze:after_cache_check", "annotate:after_publish_tree", "doc:between_read_and_write_lock",
+                          "entity:between_lookup_and_insert", "change:between_reset_and_install",
+                          "diag:between_lint_walk_and_take"];
 
 fn park(g: &Gate) {
     let mut st = g.state.lock().unwrap();
